@@ -54,7 +54,7 @@ DESCRIPTION = {
     ],
     "required_probes": {
         "quick": ["run_failed_after_registration", "provider_reused_after_failed_run", "overlapping_nonempty_sessions",
-                  "default_provider_concurrent", "hygiene_probe"],
+                  "default_provider_concurrent", "hygiene_probe", "insertion_sweep"],
         "thorough": ["run_failed_after_registration", "provider_reused_after_failed_run", "overlapping_nonempty_sessions",
                      "default_provider_concurrent", "hygiene_probe", "same_text_two_providers", "sqlalchemy_provider", "tsql_split_mode", "silent_mode"],
     },
@@ -321,7 +321,7 @@ def run_one(spec: dict) -> dict:
                 if run.get("project") is not None:
                     run["_file_path"] = os.path.join(pdir, f"p{run['project']}", "script.sql")
     # 1. isolated references first, while this process is still pristine and single-threaded
-    refs = {}
+    refs = dict(spec.get("_refs") or {})
     for th in spec["threads"]:
         for run in th["runs"]:
             ps = spec["providers"][run["provider"]] if run["provider"] is not None else None
@@ -335,6 +335,11 @@ def run_one(spec: dict) -> dict:
     _world = w
     if spec.get("schedule") is not None:
         chooser = ReplayChooser(spec["schedule"])
+    elif spec.get("insert_at") is not None:
+        from ..sched import InsertAtChooser
+
+        ia = spec["insert_at"]
+        chooser = InsertAtChooser(ia["victim"], ia["k"] if ia["k"] >= 0 else 10 ** 9, ia["intruder"], ia.get("prefix", 0))
     else:
         chooser = make_chooser(spec["sched"], stream(spec["seed"], "sched"), horizon=spec.get("horizon", 800))
     sched = Scheduler(chooser, max_steps=2_000_000, hang_s=110.0)
@@ -505,6 +510,8 @@ def run_one(spec: dict) -> dict:
                 f.pop("_fired", None)
     op_events = [[e[1], e[2], e[3]] for e in w.events]
     res = {
+        "_refs": refs if spec.get("insert_at") is not None else None,
+        "victim_yields": getattr(sched.chooser, "count", None),
         "verdict": "violation" if w.violation else "ok",
         "digest": short(op_events, 24),
         "line_digest": sched.trace_digest.hexdigest()[:24],
@@ -518,16 +525,63 @@ def run_one(spec: dict) -> dict:
     }
     if w.violation:
         res["violation"] = w.violation
-        sp = json.loads(json.dumps(spec))
+        sp = json.loads(json.dumps({kk: v for kk, v in spec.items() if kk != "_refs"}))
         sp["schedule"] = list(sched.schedule)
         res["spec"] = sp
     return res
 
 
+def run_sweep(spec: dict) -> dict:
+    """Systematic single insertion: thread 1's whole run is inserted at EVERY collaborator-level yield point
+    (provider lookup, tap; the first 80) of thread 0's run."""
+    k, total, steps, nsub, first = -1, None, 0, 0, None
+    while total is None or k < total:
+        sp = json.loads(json.dumps({kk: v for kk, v in spec.items() if kk != "isweep"}))
+        sp["insert_at"] = dict(spec["isweep"], k=k)
+        if first is not None:
+            sp["_refs"] = refs_once  # the isolated references are computed once per sweep
+        r = run_one(sp)
+        if first is None:
+            refs_once = r.get("_refs") or {}
+        r.pop("_refs", None)
+        nsub += 1
+        steps += r["steps"]
+        if total is None:
+            total = min(r.get("victim_yields") or 0, 80)
+            first = r
+        if r["verdict"] == "violation":
+            r["violation"]["message"] += f" [systematic insertion: thread 1's run inserted at yield point {k} of {total} of thread 0's]"
+            r["steps"] = steps
+            if r.get("spec"):
+                r["spec"].pop("insert_at", None)
+                r["spec"]["isweep"] = spec["isweep"]
+            return r
+        k += 1
+    first["steps"] = steps
+    first["probes"] = dict(first["probes"], insertion_sweep=1)
+    first["extra"] = dict(first.get("extra") or {}, sweep_subruns=nsub)
+    first["digest"] = short(["sweep", spec["threads"], spec["isweep"]], 24)
+    first["log_digest"] = digest(["sweep", first["log_digest"], total])
+    return first
+
+
+def gen_sweep(seed) -> dict:
+    g = stream(seed, "gen-sweep")
+    shared_default = g.random() < 0.4
+    providers = [{"kind": g.choice(["sim", "dummy"]), "meta": dict(BASE_META)} for _ in range(2)]
+    tag = f"r{g.randrange(1, 4)}"  # the two runs often collide on names
+    a = gen_run(g, tag, None if shared_default else 0, allow_faults=False)
+    b = gen_run(g, tag if g.random() < 0.6 else "r9", None if shared_default else 1, allow_faults=g.random() < 0.3)
+    follow = gen_run(g, "r7", None if shared_default else 0, allow_faults=False, special=False)
+    return {"seed": seed, "providers": providers, "projects": [], "threads": [{"runs": [a, follow]}, {"runs": [b]}],
+            "sched": "sticky", "line": [], "gran": "line", "horizon": 100,
+            "isweep": {"victim": 0, "intruder": 1, "prefix": 0}}
+
+
 def execute(arg: dict) -> dict:
     runs = []
     for i, spec in enumerate(arg["specs"]):
-        r = run_one(spec)
+        r = run_sweep(spec) if spec.get("isweep") else run_one(spec)
         if i == 0 and r["verdict"] == "ok":
             r["sample"] = {"threads": [[{k: v for k, v in run.items() if k in ("tag", "script", "dialect", "provider", "faults")} for run in th["runs"]] for th in spec["threads"]][:2],
                            "sched": spec["sched"], "line": spec.get("line"), "steps": r["steps"]}
@@ -784,6 +838,9 @@ def plan(seed: int, tier: str) -> list[dict]:
         sw = [s for i, s in enumerate(sw)]
     for i in range(0, len(sw), 6):
         units.append({"key": {"hash_seed": 1 + (i // 6) % 4}, "specs": sw[i:i + 6], "wall_s": 240.0})
+    nsw = {"quick": 24, "thorough": 900}[tier]
+    for b in range(nsw // 3):
+        units.append({"key": {"hash_seed": b % 4}, "specs": [gen_sweep(master.randrange(2 ** 48)) for _ in range(3)], "wall_s": 280.0})
     nruns = {"quick": 660, "thorough": 16000}[tier]
     block = 3
     for b in range(nruns // block):
